@@ -202,9 +202,9 @@ class SourceCoverage:
             miss = sorted(body - hit)
             th += len(hit)
             tt += len(body)
-            out[rel] = {"lines_hit": len(hit), "lines": len(body), "never_ran": miss[:60]}
+            out[rel] = {"lines_hit": len(hit), "lines": len(body), "never_ran": miss[:200]}
         return {"anchored_files": out, "lines_hit": th, "lines": tt,
-                "note": "executable lines inside function and class bodies of the files the property is anchored in; never_ran = lines no case of this run reached"}
+                "note": "executable lines inside function bodies of the files the property is anchored in; never_ran = lines no case of this run reached IN THIS PROCESS (work done in worker processes -- the parser pool of C14, the CLI subprocesses of C20 -- is not counted)"}
 
 
 def anchored_files(pid):
